@@ -41,7 +41,7 @@ static uint8_t *SLAB[VS_MAXT];
 /* large operations (12000-value inputs) run only as operation 0 of threads 0..2 and get a larger private slab */
 #define LSLOT_BYTES (3 * C17_LARGE_BYTES + C17_OBS_MAX)
 static uint8_t *LSLAB[3];
-static int is_large(int oi) { return oi >= C17_NOPS; }
+static int is_large(int oi) { return oi >= C17_NOPS && oi < C17_NALL; }
 static void ensure_ctx(int t, int k, int large) {
     if (!SLAB[t]) {
         SLAB[t] = malloc((size_t)SLOT_BYTES * MAXOPS_PER_THREAD);
@@ -81,6 +81,7 @@ static void setup(int nthr, int nops_each, int ops[][MAXOPS_PER_THREAD]) {
     for (int i = 0; i < C17_NIN; i++) {
         vs_add_shared_ro(C17_IN[i], C17_INBYTES[i]);
     }
+    c17_reset_record();
     for (int t = 0; t < nthr; t++) {
         TS[t].nops = nops_each;
         for (int k = 0; k < nops_each; k++) {
@@ -265,6 +266,7 @@ static void *ARGS[VS_MAXT];
 static uint64_t n_exec, n_events, n_points;
 
 static const vs_exec *run_group(const uint8_t *prefix, int plen) {
+    c17_reset_record();
     for (int t = 0; t < NTHR; t++) {
         BODIES[t] = body;
         ARGS[t] = &TS[t];
@@ -596,6 +598,29 @@ int main(int argc, char **argv) {
             }
         }
         vh_flag("all_large_pairs", lcomplete);
+    }
+    /* (e) records: adjacent varint slots of one 8-byte aligned record, each updated in place by its own thread. The
+     * in-place adders may touch only the bytes of their own slot, so no two such calls conflict. */
+    if (vh_section_begin("records")) {
+        for (int i = C17_NALL; i < C17_NALL + C17_NREC; i++) {
+            for (int j = i + 1; j < C17_NALL + C17_NREC; j++) {
+                if (!vh_case()) {
+                    continue;
+                }
+                ops[0][0] = i;
+                ops[1][0] = j;
+                snprintf(HNAME, sizeof HNAME, "threads {%s, %s}", C17_OPS[i].name, C17_OPS[j].name);
+                run_harness(2, 1, ops, max_bound, 4000);
+            }
+        }
+        ops[0][0] = C17_NALL + 0;
+        ops[1][0] = C17_NALL + 1;
+        ops[2][0] = C17_NALL + 5;
+        if (vh_case()) {
+            snprintf(HNAME, sizeof HNAME, "threads {three record slots}");
+            run_harness(3, 1, ops, 1, 4000);
+        }
+        vh_class("records", "%d slots, every pair of distinct slots as two threads", C17_NREC);
     }
     /* (b) 16 threads, each running every operation, each thread a different rotation of the list */
     if (vh_section_begin("sixteen") && vh_case()) {
